@@ -26,7 +26,8 @@ SInit == s = [ up |-> TRUE, now |-> 0,
                ops |-> [i \in OpIds |-> NoOp],
                subs |-> {},            \* [id, fam, a, h]   fam: states logs svc hastate adv rawadv free ndata connstate
                img |-> {},             \* camera chunks so far: [sub, key, parts]
-               va |-> [on |-> FALSE, mode |-> "none", q |-> <<>>, audio |-> FALSE],   \* q: start handler tasks "pending" | "port" | "noport"
+               va |-> [on |-> FALSE, mode |-> "none", q |-> <<>>, audio |-> FALSE, cnt |-> 0],
+                                       \* q: start handler tasks [st: "pending" | "port" | "noport", n: serial number of the start]
                tm |-> {},              \* armed timers [k, at]
                w |-> <<>>, cb |-> <<>>, dn |-> <<>> ]
 
@@ -126,8 +127,10 @@ Dispatch(x, m) ==
     [] m.k = "vareq" ->
          IF ~x1.va.on THEN x1
          ELSE IF m.f THEN      \* start: a handler task starts eagerly; its answer is written when it is done
+                \* (modes "block" / "gated": the handler is still running; a gated one ends in VaRelease)
                 [x1 EXCEPT !.cb = Append(@, <<0, "va_start", m.d, <<>> >>),
-                           !.va.q = Append(@, IF x1.va.mode = "block" THEN "pending" ELSE x1.va.mode)]
+                           !.va.q = Append(@, [st |-> IF x1.va.mode \in {"port", "noport"} THEN x1.va.mode ELSE "pending", n |-> x1.va.cnt + 1]),
+                           !.va.cnt = @ + 1]
               ELSE [x1 EXCEPT !.cb = Append(@, <<0, "va_stop", 1, <<>> >>)]
     [] m.k = "vaaudio" ->
          IF ~(x1.va.on /\ x1.va.audio) THEN x1
@@ -147,13 +150,25 @@ RECURSIVE Chunk(_, _)
 Chunk(x, ms) == IF ms = <<>> THEN x ELSE Chunk(Dispatch(ConnectTake(x, Head(ms)), Head(ms)), Tail(ms))
 EnvChunk(x0, ms) == Chunk(Begin(x0), ms)
 
-\* the voice-assistant start handler finished: its answer is written in a later callback
-FirstDone(q) == CHOOSE j \in 1..Len(q) : q[j] # "pending" /\ \A i \in 1..j - 1 : q[i] = "pending"
-VaStartedEnabled(x) == x.up /\ \E j \in 1..Len(x.va.q) : x.va.q[j] # "pending"
-VaStarted(x0) ==
-  LET x == Begin(x0) j == FirstDone(x.va.q)
+\* A voice-assistant start handler finished: its own answer - the port IT returned (here 12000 + its serial
+\* number) or an error - is written in a later callback, whatever other starts are running or have finished.
+\* Entry states: "pending" (handler running) -> "w_port" / "w_noport" (its gate was released, the task has not
+\* resumed yet - it can still be cancelled) -> "port" / "noport" (the task is done) -> answer written, entry removed.
+Woken(t) == t.st \in {"w_port", "w_noport"}
+VaDone(x) == {j \in 1..Len(x.va.q) : x.va.q[j].st \in {"port", "noport"}}
+VaWoken(x) == {j \in 1..Len(x.va.q) : Woken(x.va.q[j])}
+VaStartedEnabled(x) == x.up /\ VaDone(x) # {}
+VaStarted(x0, j) ==
+  LET x == Begin(x0)
       y == [x EXCEPT !.va.q = SubSeq(@, 1, j - 1) \o SubSeq(@, j + 1, Len(@))]
-  IN Write(y, IF x.va.q[j] = "port" THEN "VoiceAssistantResponse:port" ELSE "VoiceAssistantResponse:error")
+  IN Write(y, IF x.va.q[j].st = "port" THEN "VoiceAssistantResponse:port:" \o ToString(x.va.q[j].n) ELSE "VoiceAssistantResponse:error")
+\* the application's handler of start number n is allowed to return (res: "port" | "noport") ...
+VaRelease(x0, n, res) ==
+  [Begin(x0) EXCEPT !.va.q = [j \in 1..Len(@) |-> IF @[j].n = n /\ @[j].st = "pending"
+                                                   THEN [@[j] EXCEPT !.st = IF res = "port" THEN "w_port" ELSE "w_noport"] ELSE @[j]]]
+\* ... and its task resumes and ends (a callback of its own, nothing observable yet)
+VaHandlerStep(x0, j) ==
+  [Begin(x0) EXCEPT !.va.q[j].st = IF @ = "w_port" THEN "port" ELSE "noport"]
 
 \* ------------------------------------------------------------- user calls
 \* number of distinct callbacks registered with the connection: 3 internal ones, one per subscription,
@@ -230,12 +245,12 @@ UserUnsub(x0, id, fam) ==
 
 VaSubscribe(x0, mode, audio) ==
   LET x == Begin(x0) IN
-  IF ~x.up THEN x ELSE Write([x EXCEPT !.va = [on |-> TRUE, mode |-> mode, q |-> @.q, audio |-> audio]], "SubscribeVoiceAssistantRequest")
+  IF ~x.up THEN x ELSE Write([x EXCEPT !.va = [on |-> TRUE, mode |-> mode, q |-> @.q, audio |-> audio, cnt |-> @.cnt]], "SubscribeVoiceAssistantRequest")
 VaUnsub(x0) ==
   LET x == Begin(x0)
-      \* the start handler that is still running (the most recent one) is cancelled: no answer
+      \* the most recent start handler is cancelled if it is still running: no answer; earlier ones run on
       y == [x EXCEPT !.va.on = FALSE,
-                     !.va.q = IF Len(@) > 0 /\ @[Len(@)] = "pending" THEN SubSeq(@, 1, Len(@) - 1) ELSE @] IN
+                     !.va.q = SelectSeq(@, LAMBDA t : ~(t.n = x.va.cnt /\ (t.st = "pending" \/ Woken(t))))] IN
   IF x.up THEN Write(y, "SubscribeVoiceAssistantRequest") ELSE y
 
 \* the connection goes away: every waiting operation fails with the connection's error
@@ -247,7 +262,7 @@ EnvClose(x0) ==
 
 NextDeadline(x) == (CHOOSE t \in x.tm : \A u \in x.tm : t.at <= u.at).at
 NothingDue(x) == \A t \in x.tm : t.at > x.now
-Quiescent(x) == (\A i \in OpIds : ~OpStepEnabled(x, i)) /\ ~VaStartedEnabled(x)
+Quiescent(x) == (\A i \in OpIds : ~OpStepEnabled(x, i)) /\ ~VaStartedEnabled(x) /\ VaWoken(x) = {}
 
 \* ============================================================ PROPERTIES
 \* C16: an operation is completed only by a message carrying its address (and handle)
